@@ -149,7 +149,7 @@ def run(ctx):
     # pre-rescaling parameters), points of exactly get_dimension() coordinates; includes graphs that consist of ONE edge
     # ("a single remaining edge is removed without consuming a number")
     ss = S.generate(ctx, 8 if ctx.quick else 60, 3, max_e=5, max_loops=3, routings_per_graph=1, kinds=("uniform", "edge1", "corner"),
-                    special=("single_edge", "single_edge", "vacuum", "vacuum"))
+                    special=("single_edge", "single_edge", "vacuum", "vacuum") + ("unit_j",) * (6 if ctx.quick else 30))
     S.run(ss)
     SC.corr_perm(ctx, ss)
     SC.generic_scalar_guard(ctx, ss[:: 2], k=8)
@@ -159,5 +159,31 @@ def run(ctx):
         ctx.count(f"api.E={len(c['edges'])}"); ctx.count(f"api.status.{a.get('status')}")
         if a.get("status") == "panic":
             ctx.violation(f"sample panicked on a point of exactly get_dimension() = {len(s['xs'])} coordinates: {a.get('msg', '')[:120]}",
-                          S.small_req(s), observed=a)
+                          S.small_req(s), observed=a); continue
+        # exact oracle for the whole removal sequence: coordinate 2k selects the (k+1)-th edge by the exact cumulative distribution of the
+        # graph that is left (the last edge needs no coordinate); observed order = decreasing pre-rescaling parameters
+        n = len(c["edges"])
+        xpre = (a.get("log") or {}).get("momtrop_feynman_parameter_no_rescaling")
+        ent = s["table"]["entries"]
+        if a.get("status") != "ok" or not xpre or n < 2 or not SC.finite(xpre) or any(not math.isfinite(b2f(en[2])) or not math.isfinite(b2f(en[3])) for en in ent):
+            continue
+        xp = [b2f(b) for b in xpre]
+        if len(set(xp)) < n or min(xp) <= 0:
+            ctx.count("api.ties_or_zero_parameters_skipped"); continue
+        observed = sorted(range(n), key=lambda e: -xp[e])
+        g, expected, clear = (1 << n) - 1, [], True
+        for k in range(n - 1):
+            uu = Fraction(s["xs"][2 * k])
+            ex = exact_cums(ent, n, g)
+            if any(uu != ck and abs(uu - ck) <= Fraction(1, 10 ** 9) for _, ck in ex):
+                clear = False; break
+            e = next((e for e, ck in ex if ck >= uu), ex[-1][0])
+            expected.append(e); g ^= 1 << e
+        if not clear:
+            ctx.count("api.boundary_skipped"); continue
+        expected.append(next(e for e in range(n) if g >> e & 1))
+        ctx.count("api.removal_sequence_checked")
+        if observed != expected:
+            ctx.violation(f"removal order {observed} (from the logged parameters); the edge-choice coordinates {[s['xs'][2 * k] for k in range(n - 1)]} select {expected} "
+                          f"by the exact cumulative distributions", S.small_req(s), expected=expected, observed=observed)
 
